@@ -554,6 +554,8 @@ pub struct Sim {
     pub log_enabled: bool,
     pub runq: RunQ,
     parked: Vec<usize>,
+    /// when set, delivered bytes are collected here instead of being handed to the transport
+    pub capture: Option<Vec<u8>>,
 }
 
 impl Sim {
@@ -593,6 +595,7 @@ impl Sim {
             log_enabled: true,
             runq,
             parked: Vec::new(),
+            capture: None,
         };
         s.cmd(Cmd::SetUp(reader, writer));
         s
@@ -855,6 +858,10 @@ impl Sim {
     // ---- transport
 
     pub fn feed(&mut self, bytes: &[u8]) {
+        if let Some(c) = self.capture.as_mut() {
+            c.extend_from_slice(bytes);
+            return;
+        }
         let w = {
             let mut r = self.reader.0.borrow_mut();
             r.data.extend(bytes.iter().copied());
